@@ -398,7 +398,19 @@ def generate(repo, cfg_inc):
     md_expr = m_md.group(1).replace("options->max_depth", "opt").replace("s_max_document_depth", str(c["MAX_DEPTH"]))
     only_identifiers(md_expr, ["opt"], "defaulting of max_depth")
 
+    # the callback stack: its length is what the depth test reads, and aws_xml_node_traverse ignores the result of the
+    # push, so it must be a list that grows (a static list silently stops growing at its capacity and the depth guard
+    # never fires for a larger options.max_depth)
+    if re.search(r"aws_array_list_init_static\s*\(\s*&parser\.callback_stack", parse):
+        raise GenError("xml_parser.c: parser.callback_stack is a static list: its length cannot follow the nesting beyond its "
+                       "capacity, the depth test of aws_xml_node_traverse relies on it")
+    m_cs = one(r"aws_array_list_init_dynamic\s*\(\s*&parser\.callback_stack\s*,\s*allocator\s*,\s*([^,]+?)\s*,\s*sizeof\s*\(\s*struct\s+cb_stack_data\s*\)\s*\)\s*;",
+               parse, "parser.callback_stack is a dynamic list")
+    one(r"aws_array_list_clean_up\s*\(\s*&parser\.callback_stack\s*\)\s*;", parse, "clean-up of the callback stack")
+
     # ---- aws_xml_node_traverse
+    one(r"aws_array_list_push_back\s*\(\s*&parser->callback_stack\s*,\s*&stack_data\s*\)\s*;", trav, "push of the callback stack")
+    one(r"aws_array_list_pop_back\s*\(\s*&parser->callback_stack\s*\)\s*;\s*return\s+parser->error\s*;", trav, "pop of the callback stack")
     m_dt = one(r"if\s*\(([^{}]*?)\)\s*\{\s*AWS_LOGF_ERROR\s*\([^;]*exceeds max depth", trav, "depth test")
     one(r"size_t\s+doc_depth\s*=\s*aws_array_list_length\s*\(\s*&parser->callback_stack\s*\)\s*;", trav, "doc_depth")
     dt_expr = m_dt.group(1).replace("parser->max_depth", "max_depth")
@@ -475,6 +487,8 @@ def generate(repo, cfg_inc):
     d("attrLoopStart", c["ATTR_LOOP_START"], f"`for (size_t i = {norm(m_loop.group(1))}; i < splits.length; ++i)`")
     d("emptyMarker", c_char(m_empty.group(1)), "`node->is_empty = decl_body->ptr[decl_body->len - 1] == …`", "UInt8")
     d("parentCloseMarker", c_char(m_pc.group(1)), "`*(next_location + 1) == …` -> parent closed", "UInt8")
+    d("callbackStackDynamic", "true", f"`aws_array_list_init_dynamic(&parser.callback_stack, allocator, {norm(m_cs.group(1))}, …)`: the stack whose "
+      "length the depth test reads grows with every push (a push cannot fail short of allocation failure, which aborts)", "Bool")
     d("preambleMarkers", lean_bytes(markers), "`*(parser.doc.ptr + 1) == …` alternatives of the preamble loop", "List UInt8")
     a("")
     a(f"/-- `if ({norm(m_dt.group(1))})` of aws_xml_node_traverse (-> \"XML document exceeds max depth.\"), reads lifted to parameters -/")
